@@ -39,6 +39,15 @@ func (eng *Engine) prelude() string {
 			}
 		}
 	}
+	{
+		var lits []string
+		for _, s := range eng.strOrder {
+			lits = append(lits, eng.strs[s])
+		}
+		if len(lits) > 1 {
+			b.WriteString("(assert (distinct " + strings.Join(lits, " ") + "))\n")
+		}
+	}
 	if eng.needStrConcat {
 		b.WriteString("(declare-fun gs.cat (Str Str) Str)\n")
 		b.WriteString("(assert (forall ((a Str) (b Str)) (= (gs.len (gs.cat a b)) (+ (gs.len a) (gs.len b)))))\n")
@@ -159,7 +168,7 @@ func (eng *Engine) optionalDecls(body string) string {
 	for changed := true; changed; {
 		changed = false
 		for i, it := range items {
-			if !used[i] && strings.Contains(text, "("+it.sym+" ") {
+			if !used[i] && (strings.Contains(text, "("+it.sym+" ") || strings.Contains(text, " "+it.sym+")") || strings.Contains(text, " "+it.sym+" ")) {
 				used[i] = true
 				text += it.text
 				changed = true
